@@ -1,0 +1,90 @@
+//go:build verif
+
+package conc
+
+// Contracts for GoVC (see /verif/DESIGN.md). Comment-only: compiles to nothing.
+//
+// ConcurrentQueue is a monitor: bcast.mtx guards running and jobQueueSize; maxConcurrency and jobQueue are
+// immutable; the LinkedList behind jobQueue is owned (it is only ever used while bcast.mtx is held), so its
+// ghost window [lo, hi) can appear in the queue's invariant. Ghost counters: enq = jobs accepted by
+// Enqueue / the constructor, done = job slots that workers have finished.
+//   J1  jobQueueSize is the length of the list            J2  running <= limit (limit > 0)
+//   J3  queued > 0 only if running equals the limit       J4  accepted - finished <= queued + running
+//   TI  a critical section that makes the queue idle broadcasts (WaitIdle cannot miss it)
+// A job is started directly only when nothing is queued (assertion at the go statement in Enqueue), which
+// with the FIFO contract of LinkedList gives start order = enqueue order for limit 1.
+//
+//@ object ConcurrentQueue
+//@   props C18 C13
+//@   lock bcast.mtx
+//@   guarded running, jobQueueSize
+//@   immutable maxConcurrency, jobQueue
+//@   owns jobQueue
+//@   bounded running, jobQueueSize
+//@   ghost enq: int
+//@   ghost done: int
+//@   inv J0: this.jobQueue != nil
+//@   inv J1: this.jobQueueSize == this.jobQueue.hi - this.jobQueue.lo
+//@   inv J2: this.maxConcurrency > 0 ==> this.running <= this.maxConcurrency
+//@   inv J3: this.jobQueueSize > 0 ==> this.maxConcurrency > 0 && this.running == this.maxConcurrency
+//@   inv J4: this.enq - this.done <= this.jobQueueSize + this.running
+//@   trans TI: this.running == 0 && this.jobQueueSize == 0 && !(old(this.running) == 0 && old(this.jobQueueSize) == 0) ==> (old(this.bcast.ch) != nil ==> closed(old(this.bcast.ch)))
+//
+//@ func (*ConcurrentQueue).Enqueue
+//@   props C18
+//@   opt frame = skip
+//@   ensures counts: queued > 0 ==> s.maxConcurrency > 0 && running == s.maxConcurrency
+//
+//@ closure (*ConcurrentQueue).Enqueue$1
+//@   props C18
+//@   ghost exit: s.enq := s.enq + len(jobs)
+//@   assert go 1: s.jobQueueSize == 0
+//@   loop 1 invariant inv: objinv(s.jobQueue) && objinv(s.bcast) && s.jobQueue != nil && s.jobQueueSize == s.jobQueue.hi - s.jobQueue.lo
+//@   loop 1 invariant limits: (s.maxConcurrency > 0 ==> s.running <= s.maxConcurrency) && (s.jobQueueSize > 0 ==> s.maxConcurrency > 0 && s.running == s.maxConcurrency)
+//@   loop 1 invariant accepted: s.enq + rangeindex + 1 - s.done <= s.jobQueueSize + s.running
+//@   loop 1 invariant nooverflow: s.running <= csold(s.running) + rangeindex + 1 && s.jobQueueSize <= csold(s.jobQueueSize) + rangeindex + 1 && csold(s.running) < 4611686018427387904 && csold(s.jobQueueSize) < 4611686018427387904
+//@   assert exit: queued == s.jobQueueSize && running == s.running
+//
+//@ func (*ConcurrentQueue).WaitIdle
+//@   props C18
+//@   opt frame = skip
+//@   requires ctx != nil
+//@   ensures source: result != nil ==> cancelled(ctx) || recvs(errCh) > old(recvs(errCh))
+//@   loop 1 invariant counts: recvs(errCh) >= old(recvs(errCh))
+//@   assert select 1: selects(wait) && selects(done(ctx)) && selects(errCh) && wait != nil && issuedBy(wait) == s.bcast && gettime(wait) == lastcs()
+//
+//@ closure (*ConcurrentQueue).WaitIdle$1
+//@   props C18
+//@   assert exit: idle ==> s.enq - s.done <= 0
+//@   assert exit: !idle ==> wait != nil && wait == s.bcast.ch && !(s.running == 0 && s.jobQueueSize == 0)
+//
+//@ func (*ConcurrentQueue).WatchState
+//@   props C18
+//@   opt frame = skip
+//@   requires ctx != nil
+//@   ensures counts: calls(cb) > old(calls(cb)) ==> (lastarg(cb, 0) > 0 ==> s.maxConcurrency > 0 && lastarg(cb, 1) == s.maxConcurrency)
+//@   ensures err: result != nil && result != context.Canceled && cb != nil ==> calls(cb) > old(calls(cb)) && result == lastret(cb, 1)
+//@   loop 1 invariant counts: calls(cb) >= old(calls(cb)) && (calls(cb) > old(calls(cb)) ==> (lastarg(cb, 0) > 0 ==> s.maxConcurrency > 0 && lastarg(cb, 1) == s.maxConcurrency))
+//@   assert select 1: selects(waitCh) && selects(done(ctx)) && waitCh != nil && issuedBy(waitCh) == s.bcast
+//
+//@ closure (*ConcurrentQueue).WatchState$1
+//@   props C18
+//@   assert exit: queued == s.jobQueueSize && running == s.running && waitCh != nil && waitCh == s.bcast.ch
+//
+//@ closure (*ConcurrentQueue).updateLocked
+//@   props C18
+//@   loop 1 invariant inv: s.jobQueue != nil && objinv(s.jobQueue) && s.jobQueueSize == s.jobQueue.hi - s.jobQueue.lo && (s.maxConcurrency > 0 ==> s.running <= s.maxConcurrency) && s.enq - s.done <= s.jobQueueSize + s.running
+//
+//@ func (*ConcurrentQueue).executeJob
+//@   props C18 C13
+//@   opt frame = skip
+//@   requires s.jobQueue != nil
+//@   loop 1 invariant inv: true
+//
+//@ closure (*ConcurrentQueue).executeJob$1
+//@   props C18
+//@   ghost exit: s.done := s.done + 1
+//
+// NewConcurrentQueue (the constructor with initial elements) is not under contract: that a freshly built
+// queue satisfies J0..J4 is assumed (listed in the evidence).
+//@ assume-note conc.NewConcurrentQueue establishes the ConcurrentQueue invariants (constructor not verified)
